@@ -252,7 +252,7 @@ SPECS['C02'] = dict(queries=c02, assumptions=SPECS['C01']['assumptions'] + [
 
 # ------------------------------------------------------------------------------------------------ C08
 FORMS = {'try_lock': 1, 'try_lock_for': 2, 'try_lock_until': 3, 'try_lock_shared': 4, 'try_lock_shared_for': 5,
-         'try_lock_shared_until': 6, 'lock': 7, 'lock_shared': 8}
+         'try_lock_shared_until': 6, 'lock': 7, 'lock_shared': 8, 'const_lock': 9}
 
 
 def hq(wrap, mutex, form, hold, rounds=3, disabled=False, **kw):
@@ -277,9 +277,17 @@ def c08_combos():
                 if w == 'ordered_guarded': holds = [0, 2]
                 for h in holds:
                     out.append((w, m, f, h, False))
+            if w in ('shared_guarded', 'shared_guarded_opt'):
+                for h in (0, 1, 3):
+                    out.append((w, m, 'const_lock', h, False))
             if w in ('guarded_opt', 'shared_guarded_opt'):
                 for f in forms:
                     out.append((w, m, f, 1, True))
+            if w == 'shared_guarded_opt':
+                # disabled locking: the const overload and the shared forms must not touch the mutex either, even against each other
+                out.append((w, m, 'const_lock', 3, True))
+                out.append((w, m, 'const_lock', 2, True))
+                out.append((w, m, 'lock_shared', 3, True))
     return out
 
 
@@ -499,6 +507,8 @@ def c19(tier):
         for mv in range(4):
             qs.append(mk(f'trip_explicit_mv{mv}_owner_det_R3', 'c19_tripwire.cpp', [O, D], 3, final='vp_final', cover=3, defines=['LINEKIND=1', f'MV={mv}'],
                          opts=o, unwind=4, checks='pointer', must_cover=4, timeout=900))
+        qs.append(mk('trip_declared_mv0_second_trigger_R3', 'c19_tripwire.cpp', [O, D], 3, final='vp_final', cover=3, defines=['LINEKIND=2', 'MV=0', 'SECOND_TRIGGER'],
+                     opts=o, unwind=4, checks='pointer', must_cover=4, timeout=900))
         qs.append(mk('trip_declared_mv1_owner_det_R3', 'c19_tripwire.cpp', [O, D], 3, final='vp_final', cover=3, defines=['LINEKIND=2', 'MV=1'],
                      opts=o, unwind=4, checks='pointer', must_cover=4, timeout=900))
         qs.append(mk('trip_indexed_mv2_owner_det_R3', 'c19_tripwire.cpp', [O, D], 3, final='vp_final', cover=3, defines=['LINEKIND=3', 'MV=2'],
@@ -587,11 +597,12 @@ def c04(tier):
     qs = []
     if tier == 'quick':
         qs.append(cowq('cow_commit_reader_R2', 'WR', 2, defines=['WMODE=0', 'NSNAP=1']))
-        qs.append(cowq('cow_reader_commit_R2', 'WR', 2, order=(1, 0), defines=['WMODE=0', 'NSNAP=1']))
         qs.append(cowq('cow_cancel_commit_R2', 'WV', 2, defines=['WMODE=1', 'WMODE_B=0', 'NSNAP=1']))
-        qs.append(cowq('cow_move_reader_R2', 'WR', 2, defines=['WMODE=2', 'NSNAP=1']))
     else:
         qs.append(cowq('cow_commit_reader2_R3', 'WR', 3, defines=['WMODE=0', 'NSNAP=2'], timeout=3400))
+        qs.append(cowq('cow_reader_commit_R2', 'WR', 2, order=(1, 0), defines=['WMODE=0', 'NSNAP=1'], timeout=3400))
+        qs.append(cowq('cow_cancel_commit_R2', 'WV', 2, defines=['WMODE=1', 'WMODE_B=0', 'NSNAP=1'], timeout=3400))
+        qs.append(cowq('cow_move_reader_R2', 'WR', 2, defines=['WMODE=2', 'NSNAP=1'], timeout=3400))
         qs.append(cowq('cow_commit_cancel_R2', 'WV', 2, defines=['WMODE=0', 'WMODE_B=1', 'NSNAP=1'], timeout=3400))
         qs.append(cowq('cow_move_commit_R2', 'WV', 2, defines=['WMODE=2', 'WMODE_B=0', 'NSNAP=1'], timeout=3400))
         for od in orders(3, 'all'):
